@@ -193,3 +193,151 @@ example : witnessState.find "p1" ≠ none ∧
     (witnessState.find "p1").bind (fun pr => findToxic pr "t1") ≠ none := by decide
 
 end Toxi.Client
+
+/-! ### Proxy handles (`Enable`, `Disable`, `Save` on a `*client.Proxy` the caller kept) -/
+namespace Toxi.Client
+open Toxi.Api
+
+/-- **C19 (a handle's `Enable`/`Disable` is always sent).** Whatever the snapshot in the
+handle says — in particular when it already shows the requested state — `Enable()` and
+`Disable()` send the update request for the handle's proxy with the flag set; nothing is
+decided from the snapshot. -/
+theorem C19_handle_always_sends (v : UpdVariant) (e : Env) (s : State) (x : CProxy) (hc : x.created = true) :
+    (runHandle v e s (some x) .enable).1.requests =
+      [req .post ["proxies", x.name] (proxyBody { x with enabled := true })] ∧
+    (runHandle v e s (some x) .disable).1.requests =
+      [req .post ["proxies", x.name] (proxyBody { x with enabled := false })] := by
+  simp [runHandle, run, hc, send]
+
+theorem startProxy_some (e : Env) (s : State) (p p2 : ProxyRec) (h : startProxy e s p = some p2) :
+    p2.enabled = true ∧ p2.name = p.name := by
+  unfold startProxy at h
+  cases hl : e.lookup p.listen with
+  | none => simp [hl] at h
+  | some a =>
+    simp only [hl] at h
+    cases hb : a.bound with
+    | none => simp [hb] at h
+    | some b =>
+      simp only [hb] at h
+      split at h
+      · simp at h
+      · simp only [Option.some.injEq] at h
+        subst h
+        exact ⟨rfl, rfl⟩
+
+theorem updateProxy_ok_enabled (e : Env) (s : State) (p : ProxyRec) (inp : ProxyInput) (p' : ProxyRec)
+    (h : updateProxy e s p inp = (p', true)) : p'.enabled = inp.enabled ∧ p'.name = p.name := by
+  unfold updateProxy at h
+  cases hr : e.resolve inp.listen with
+  | none => simp [hr] at h
+  | some r =>
+    simp only [hr] at h
+    generalize hp1 : (if (!(e.sameListen p.listen inp.listen) || p.upstream != inp.upstream) = true then
+        ({ p with enabled := false, listen := inp.listen, upstream := inp.upstream } : ProxyRec) else p) = p1 at h
+    have hn : p1.name = p.name := by rw [← hp1]; split <;> rfl
+    by_cases hne : (inp.enabled != p1.enabled) = true
+    · rw [if_pos hne] at h
+      by_cases hen : inp.enabled = true
+      · rw [if_pos hen] at h
+        cases hs : startProxy e (s.replace p1) p1 with
+        | none => simp [hs] at h
+        | some p2 =>
+          simp only [hs, Prod.mk.injEq, and_true] at h
+          subst h
+          have := startProxy_some e _ p1 p2 hs
+          exact ⟨by rw [this.1, hen], by rw [this.2, hn]⟩
+      · rw [if_neg hen] at h
+        simp only [Prod.mk.injEq, and_true] at h
+        subst h
+        exact ⟨by simpa using hen, hn⟩
+    · rw [if_neg hne] at h
+      simp only [Prod.mk.injEq, and_true] at h
+      subst h
+      refine ⟨?_, hn⟩
+      have : inp.enabled = p1.enabled := by simpa using hne
+      exact this.symm
+
+end Toxi.Client
+
+namespace Toxi.Client
+open Toxi.Api
+
+theorem find_replace_same (s : State) (n : String) (p p' : ProxyRec) (h : s.find n = some p)
+    (hn : p'.name = p.name) : (s.replace p').find n = some p' := by
+  unfold State.find State.replace at *
+  induction s with
+  | nil => simp at h
+  | cons q qs ih =>
+    simp only [List.map_cons, List.find?_cons] at h ⊢
+    by_cases hq : (q.name == n) = true
+    · simp only [hq] at h
+      cases h
+      have : (p.name == p'.name) = true := by simp [hn]
+      simp only [this, if_true]
+      have : (p'.name == n) = true := by rw [hn]; exact hq
+      simp [this]
+    · have hq' : (q.name == n) = false := by simpa using hq
+      simp only [hq'] at h
+      have hpn : (p.name == n) = true := by
+        have := List.find?_some h
+        simpa using this
+      by_cases hqp : (q.name == p'.name) = true
+      · -- q has the same name as p (= n): contradiction with hq
+        have : q.name = n := by
+          have h1 : q.name = p'.name := by simpa using hqp
+          have h2 : p.name = n := by simpa using hpn
+          rw [h1, hn, h2]
+        simp [this] at hq
+      · have hqp' : (q.name == p'.name) = false := by simpa using hqp
+        simp only [hqp', Bool.false_eq_true, if_false, hq']
+        exact ih h
+
+/-- The four keys of a proxy body select exactly their own field. -/
+theorem proxyBody_decode (init : ProxyInput) (x : CProxy) :
+    decodeProxy init (proxyBody x) = some ⟨x.name, x.listen, x.upstream, x.enabled⟩ := by
+  have k : keyMatches "name" "name" = true ∧
+    keyMatches "name" "listen" = false ∧
+    keyMatches "name" "upstream" = false ∧
+    keyMatches "name" "enabled" = false ∧
+    keyMatches "listen" "name" = false ∧
+    keyMatches "listen" "listen" = true ∧
+    keyMatches "listen" "upstream" = false ∧
+    keyMatches "listen" "enabled" = false ∧
+    keyMatches "upstream" "name" = false ∧
+    keyMatches "upstream" "listen" = false ∧
+    keyMatches "upstream" "upstream" = true ∧
+    keyMatches "upstream" "enabled" = false ∧
+    keyMatches "enabled" "name" = false ∧
+    keyMatches "enabled" "listen" = false ∧
+    keyMatches "enabled" "upstream" = false ∧
+    keyMatches "enabled" "enabled" = true := by decide
+  obtain ⟨k1, k2, k3, k4, k5, k6, k7, k8, k9, k10, k11, k12, k13, k14, k15, k16⟩ := k
+  simp [proxyBody, decodeProxy, lookupAll, k1, k2, k3, k4, k5, k6, k7, k8, k9, k10, k11, k12, k13, k14, k15, k16,
+    applyStores, storeString, storeBool, jstr]
+
+/-- **C19 (`Enable`/`Disable` on a handle have the effect of the request).** For a handle of
+an existing proxy, whatever its snapshot: if the call reports success, the server's proxy is
+in the requested state afterwards. -/
+theorem C19_handle_enable_effect (v : UpdVariant) (e : Env) (s : State) (x : CProxy) (p : ProxyRec) (b : Bool)
+    (hc : x.created = true) (hp : s.find x.name = some p)
+    (hok : (run v e s (.save { x with enabled := b })).failed = false) :
+    ∃ p', (run v e s (.save { x with enabled := b })).state.find x.name = some p' ∧ p'.enabled = b := by
+  have hstep : ∀ body : Body, step v e s (req .post ["proxies", x.name] body) = hUpdate e s x.name body := by
+    intro body
+    have h1 : (Method.post == Method.get) = false := by decide
+    simp [step, req, routeMethods, dispatch, List.contains, List.elem, h1]
+  simp only [run, hc, if_true, send] at hok ⊢
+  simp only [hstep] at hok ⊢
+  simp only [hUpdate, withProxy, hp, proxyBody_decode] at hok ⊢
+  cases hu : updateProxy e s p ⟨x.name, x.listen, x.upstream, b⟩ with
+  | mk p' okk =>
+    cases okk with
+    | false => simp [hu, isError, errResp, Err.status] at hok
+    | true =>
+      have := updateProxy_ok_enabled e s p _ p' hu
+      refine ⟨p', ?_, this.1⟩
+      simp only [hu]
+      exact find_replace_same s x.name p p' hp this.2
+
+end Toxi.Client
